@@ -665,9 +665,11 @@ private:
 	// cst is either linear_constraint or reference_constraint
         auto cst = *(csts.begin());
         env.set(x, typename BoolToCstEnv::mapped_type(cst.negate()));
-      } else if (csts.size() > 1) { 
-	// we do not negate multiple conjunctions because it would
-	// become a disjunction so we give up
+      } else {
+	// - csts.size() > 1: we do not negate multiple conjunctions
+	//   because it would become a disjunction so we give up.
+	// - csts.size() == 0: nothing is known about y. In both cases
+	//   whatever was recorded for x before must be forgotten.
         env -= x;
       }
     }
